@@ -215,6 +215,10 @@ class CollAlg:
                 target.elts) == 2 and all(isinstance(x, ast.Name)
                                           for x in target.elts):
             return {target.elts[0].id: "_k", target.elts[1].id: "_v"}
+        if isinstance(target, ast.Tuple) and kind == "elem" and all(
+                isinstance(x, ast.Name) for x in target.elts):
+            # components of a tuple element: `_[i]`
+            return {x.id: f"_[{i}]" for i, x in enumerate(target.elts)}
         return None
 
     def iter_base(self, it: ast.AST):
@@ -523,8 +527,11 @@ class CollAlg:
                                   "that is not constant here")
                 self.opaque_all(["<yield>"], "conditional return")
             touched = self.assigned_in(s.body) | self.assigned_in(s.orelse)
-            self.opaque_all(touched & (set(self.env) | touched),
-                            "assigned under a condition")
+            # a collection (re)bound under a condition is, afterwards, "the
+            # value of that variable": a source of its own
+            for n in touched:
+                self.env[n] = ("src", n)
+                self.plain.pop(n, None)
             return
         if isinstance(s, (ast.With, ast.AsyncWith)):
             self.block(s.body)
